@@ -192,7 +192,11 @@ func genRequestBody(t *rapid.T, mode string, depth, batch int) genReq {
 		m := genValidParams(t, mode, depth, batch)
 		n := pick(t, "padlen", 1<<20, 2<<20, 4<<20, 4<<20, 8<<20, 16<<20)
 		if rapid.Bool().Draw(t, "ws") {
-			return genReq{Method: "POST", Body: m.writeDoc(styleHexLower), PadLen: n, PadAt: "whitespace-prefix", Class: "overlong:whitespace", Expect: "valid", Hash: m.InputHash}
+			exp := "valid"
+			if n >= 8<<20 {
+				exp = "gray" // production batches are ~2 MiB; a server may legitimately cap bodies far above that
+			}
+			return genReq{Method: "POST", Body: m.writeDoc(styleHexLower), PadLen: n, PadAt: "whitespace-prefix", Class: "overlong:whitespace", Expect: exp, Hash: m.InputHash}
 		}
 		// a megabyte of leading zero digits in preRoot: still the same number, so still a valid batch (gray: any clean answer)
 		return genReq{Method: "POST", Body: m.writeDoc(styleHexLower), PadLen: n, PadAt: `digits:"preRoot":"0x`, Class: "overlong:digits", Expect: "gray", Hash: m.InputHash}
